@@ -113,11 +113,21 @@ def check_result(mon, sketches, combo, args, items, det):
             for k, v in it["keys"]:
                 seq.add(unhx(k), v)
         mon.check(np.array_equal(seq.registers, h.registers), "hll-registers==sequentially-built-real-sketch", **det)
+        # the returned sketch was filled through other handles / processes: it must still behave as a merge operand
+        fresh = state.make({"kind": "hll", "p": a["p"], "seed": a["seed"]})
+        fresh.merge(h)
+        mon.check(np.array_equal(fresh.registers, want), "returned-hll-merges-into-a-fresh-sketch", **det)
+        h.merge(seq)
+        mon.check(np.array_equal(np.asarray(h.registers), want), "returned-hll-unchanged-by-merging-the-same-stream", **det)
     if "cms" in combo:
         c = sketches["cms"]
         a = args["cms_args"]
         mon.check(int(c.n_added()) == total, "cms-n_added==total-multiplicity", got=int(c.n_added()), want=total, **det)
         mon.check(int(c.n_records()) == n_records, "cms-n_records==sum-of-callback-returns", got=int(c.n_records()), want=n_records, **det)
+        fresh = state.make(dict({k: v for k, v in a.items() if k != "cms_type"}, kind=a["cms_type"]))
+        fresh.merge(c)
+        mon.check(np.array_equal(fresh.cms, c.cms) and int(fresh.n_added()) == total and int(fresh.n_records()) == n_records,
+                  "returned-cms-merges-into-a-fresh-sketch", **det)
         kind = a["cms_type"]
         if kind == "linear":
             pr = _prober(("linear", a["width"], a["depth"]), {"kind": "linear", "width": a["width"], "depth": a["depth"]})
